@@ -24,6 +24,7 @@ type Str struct {
 	b      []*Term
 	opaque string // non-empty: un-inspectable string produced by a cut call (fmt.Sprintf...)
 	inj    *Term  // non-nil: injective image of an Int term (big.Int.String())
+	opaqueArgs []Value // for single-verb fmt results: the arguments (injective key)
 }
 
 // Agg: struct or array value. Immutable when held in an SSA register; owned and
